@@ -2,6 +2,7 @@
 engine agreement is checked by searches under every setting)."""
 import json
 import os
+import re
 import vf
 
 IMPORTS = ["From ZV Require Import Lib.Base Model.HybridRe."]
@@ -45,6 +46,12 @@ def explain_tree(desc):
             out.append("path [%s] %s" % (path, lf["other"]))
         elif lf.get("input") != "ArgParam" or lf.get("limit") != "ArgParam":
             out.append("path [%s] calls the %s engine on something else than FindAllIndex's own arguments: %s" % (path, lf.get("engine"), "; ".join(lf.get("why", []))))
+    for lf in (desc or {}).get("threshold_leaves", []):
+        if lf.get("ret") == "other":
+            out.append("threshold(): path [%s] %s" % (" && ".join(lf.get("path") or ["(always)"]), lf.get("why")))
+    d = desc or {}
+    out.append("as read from the source: threshold() = %s; go-re2 compiled iff %s; useRE2 = %s; Compile calls %s" % (
+        d.get("threshold_tree"), d.get("re2_compiled_src"), d.get("use_re2_src"), d.get("compile_callees")))
     return out
 
 
@@ -118,7 +125,7 @@ def _run(ctx):
         why = explain_tree(tree_desc)
         broken.append("proof obligations of Props/%s.v do not check%s: %s" % (
             pid, (" — the dispatch read from the source (Generated/HybridRe2.v) is not the specified one: " + " | ".join(why)) if why else "",
-            (proofs.get("broken_files") or proofs.get("nonstd_axioms") or proofs["log"][-800:])))
+            str(proofs.get("broken_files") or proofs.get("nonstd_axioms") or "") + " " + " ".join(re.findall(r'File "[^"]+", line \d+[^\n]*\n(?:.*\n){0,8}?Error:[^\n]*(?:\n[^\n]+){0,4}', proofs.get("log", ""))[:2])[-1200:]))
 
     # ---- correspondence: dispatch decisions of the real package under each setting vs Model/HybridRe.v
     dcases = []
@@ -271,7 +278,7 @@ def _run(ctx):
             "C28_threshold_irrelevant_partial assumes (Section hypotheses grafana_spec, re2_spec) that both implement a common spec_find_all on valid UTF-8; "
             "engine agreement is only checked on the generated (corpus, regexp) pairs",
             "harness harness/overlay/index/zz_verif_c28_test.go (generator, canonicalisation) and harness/overlay/internal/hybridre2/zz_verif_c28d_test.go",
-            "translator/hybridre2 (go/ast: reads const disabled, the guard of Compile's go-re2 branch, the body of useRE2 and every path of "
+            "translator/hybridre2 (go/ast: reads const disabled, threshold() path by path, the guard of Compile's go-re2 branch, the body of useRE2 and every path of "
             "Regexp.FindAllIndex into coq/Generated/HybridRe2.v on every run; conservative: anything it does not recognise becomes an opaque "
             "condition / a derived argument / a non-engine leaf, which the checker tree_ok rejects unless harmless)",
             "one process per setting: threshold is read once per process (sync.OnceValue)",
